@@ -507,6 +507,7 @@ func (m *Model) evalBinary(x *Binary) Val {
 func (m *Model) evalAssign(x *Assign) (Val, bool) {
 	// left path first (its index expressions), then the right-hand side, then the store
 	p := m.lpathOf(x.L)
+	before := pathContainers(p)
 	var v Val
 	var fresh bool
 	if x.Op == "=" {
@@ -516,6 +517,15 @@ func (m *Model) evalAssign(x *Assign) (Val, bool) {
 		cur := m.pathRead(p)
 		r, _ := m.eval(x.R)
 		v = m.arith(x.Op[:1], cur, r)
+	}
+	// The store goes to the path as it is now. If the right-hand side replaced a container that the target's path ran
+	// through when the target was written down (o.a.a = o.a = 3 with o.a an object), "the addressed location" can be
+	// read either way - the member of the old object, or a member of what is there now - and no statement decides [P].
+	// (A prefix that was missing and that the right-hand side created is not such a case: it is stated, section 3.4.)
+	for i, c := range pathContainers(p) {
+		if i < len(before) && before[i] != nil && before[i] != c {
+			m.tag("pinned:target-prefix-replaced-by-rhs")
+		}
 	}
 	s := m.pathSlot(p)
 	m.store(s, v, fresh)
@@ -545,6 +555,48 @@ func (m *Model) lpathOf(e Expr) lpath {
 		return p
 	}
 	return lpath{base: m.lref(e)}
+}
+
+// pathContainers: the identity of the container at every proper prefix of the path ("" where there is none),
+// without creating, tagging or failing.
+func pathContainers(p lpath) []any {
+	id := func(v Val) any {
+		switch v.K {
+		case KObj:
+			return v.O
+		case KArr:
+			return v.A
+		}
+		return nil
+	}
+	v := p.base.V
+	out := []any{id(v)}
+	for _, k := range p.keys[:max(len(p.keys)-1, 0)] {
+		next := Val{K: KUnset}
+		switch v.K {
+		case KObj:
+			key := k.S
+			if k.K == KNum {
+				key = fmtNum(k.N)
+			}
+			if s, ok := v.O.M[key]; ok && (k.K == KStr || k.K == KNum) {
+				next = s.V
+			}
+		case KArr:
+			if k.K == KNum && k.N == math.Trunc(k.N) {
+				i := int(k.N)
+				if i < 0 {
+					i += len(v.A.E)
+				}
+				if i >= 0 && i < len(v.A.E) {
+					next = v.A.E[i].V
+				}
+			}
+		}
+		v = next
+		out = append(out, id(v))
+	}
+	return out
 }
 
 // pathRead: the current value at the path, creating nothing.
